@@ -24,7 +24,9 @@ META = {
                    "validate_non_coinbase_transaction_by_itself / _in_coinstate at the head.",
     "technique": "CrossHair symbolic execution of the wallet's spend builder and the transaction validators",
     "bounds": "3 wallet-owned outputs over 2 wallet keys + foreign outputs, 2 successive calls (3 thorough), values with total <= MAX; variants: head after a "
-              "confirmed two-input consolidation; used output that exists only on P with requests at F then P",
+              "confirmed two-input consolidation; the sibling fork overtook through add_block_no_validation after a balance look-up (wallet also "
+              "owns the key whose outputs differ between the branches; 1 call quick, 2 thorough); used output that exists only on P with "
+              "requests at F then P",
     "outside": "wallets needing so many inputs that the transaction exceeds the 200,000-byte limit (~1977 inputs)",
     "stubs": ["ideal signing key in skepticoin.wallet.ecdsa", "stubs as C01"],
     "assumptions": ["sum of all unspent values <= documented maximum (C02)"],
@@ -65,6 +67,8 @@ def spend_twice(ncalls: int = 2, variant: str = "plain", twin: bool = False, rea
         post: _
         """
         if ncalls < 3 and not (a3 == 1 and f3 == 0):
+            return True
+        if ncalls < 2 and not (a2 == 1 and f2 == 0):
             return True
         if not (1 <= a3 <= 2 * 10 ** 15 and 0 <= f3 <= 2 * 10 ** 15):
             return True
@@ -180,7 +184,9 @@ def obligations(tier: str, known: List[str]) -> List[Ob]:
     o = Ob("two-successive-requests", C_OK + "; " + C_FAIL, "spend_twice", {"ncalls": 2}, timeout=T)
     obs = [o, twin_of(o, timeout=300)]
     obs.append(Ob("requests-after-a-confirmed-consolidation", C_OK + "; " + C_FAIL, "spend_twice", {"ncalls": 2, "variant": "consolidated"}, timeout=T))
-    obs.append(Ob("requests-after-the-sibling-fork-overtook", C_OK + "; " + C_FAIL, "spend_twice", {"ncalls": 2, "variant": "overtaken"}, timeout=T))
+    # seven wallet-owned outputs on the new branch: one request in the quick tier, two in the thorough tier
+    obs.append(Ob("requests-after-the-sibling-fork-overtook", C_OK + "; " + C_FAIL, "spend_twice",
+                  {"ncalls": 2 if tier == "thorough" else 1, "variant": "overtaken"}, timeout=2 * T))
     obs.append(Ob("requests-across-a-reorganisation", C_OK + "; " + C_FAIL, "spend_twice", {"ncalls": 2, "variant": "reorg"}, timeout=2 * T))
     if tier == "thorough":
         obs.append(Ob("three-successive-requests", C_OK + "; " + C_FAIL, "spend_twice", {"ncalls": 3}, timeout=3000))
